@@ -531,6 +531,8 @@ func Peers() []wm.NPPeer {
 		{NSSel: &wm.Sel{}, Pod: me("app", "NotIn", "a", "b")},
 		// the same cidr as the other ipBlock peer, with an except list
 		{CIDR: "10.0.0.0/8", Except: []string{"10.1.0.0/16"}},
+		// the namespace is named and must carry another label as well (the name label is one requirement among others)
+		{NSSel: &wm.Sel{ML: map[string]string{nameKey: "backend", "team": "q"}}, Pod: ml("app", "x")},
 	}
 }
 
@@ -547,6 +549,8 @@ func Rules() []wm.NPRule {
 		}
 	}
 	rules = append(rules, wm.NPRule{}, wm.NPRule{Ports: Ports[2]})
+	// the peer list written out empty (from: [] / to: []): everything, like the omitted field
+	rules = append(rules, wm.NPRule{PeersEmptyList: true}, wm.NPRule{PeersEmptyList: true, Ports: Ports[1]})
 	return rules
 }
 
@@ -574,6 +578,7 @@ func Scopes(quick bool) []Scope {
 		}
 	}
 	reduced = append(reduced, wm.NPRule{}, wm.NPRule{Ports: Ports[2]})
+	reduced = append(reduced, wm.NPRule{PeersEmptyList: true, Ports: Ports[3]})
 	return []Scope{
 		{"shared-policy", func(c *fw.Ctx) *wm.World {
 			// policy A selects w1 only, policy B selects every pod of ns1 (w1 and w2): w1 is governed by both, w2 by one
@@ -630,6 +635,39 @@ func Scopes(quick bool) []Scope {
 			return w
 		}},
 	}
+}
+
+// DigitNamespaceScope is the shared-policy scope with its namespace renamed to "0-a": a workload peer of that namespace
+// sorts before every ip-block peer ("0-a/..." < "0.0.0.0-..."), so nothing the analysis derives from the order in which
+// peers are visited (e.g. the lazily set protected flags) can lean on "ip-blocks first". Run by C06 and C07 only.
+func DigitNamespaceScope(quick bool) Scope {
+	var shared Scope
+	for _, sc := range Scopes(quick) {
+		if sc.Name == "shared-policy" {
+			shared = sc
+		}
+	}
+	return Scope{"shared-policy/namespace-0-a", func(c *fw.Ctx) *wm.World {
+		w := shared.Gen(c)
+		c.Stride(map[bool]int{true: 5, false: 1}[quick])
+		const n = "0-a"
+		for i := range w.NSs {
+			if w.NSs[i].Name == "ns1" {
+				w.NSs[i].Name = n
+			}
+		}
+		for i := range w.WLs {
+			if w.WLs[i].NS == "ns1" {
+				w.WLs[i].NS = n
+			}
+		}
+		for i := range w.NPs {
+			if w.NPs[i].NS == "ns1" {
+				w.NPs[i].NS = n
+			}
+		}
+		return w
+	}}
 }
 
 // Describe renders a world for replay files.
